@@ -302,31 +302,27 @@ def _record(scn, res, stable, label):
             "n_events": len(res.events), "preempt": pre, "nthreads": len(scn.progs)}
 
 
-def _explore_task(args):
-    idx, bound, max_runs, shard = args
+class _R:  # adapter: explore() wants .choices / .runnable_log
+    def __init__(self, res):
+        self.res = res
+        self.choices, self.runnable_log = res.sched.choices, res.sched.runnable_log
+
+
+def _root_task(args):
+    """Root run of one fixed scenario + the nodes below it (work units for `_subtree_task`)."""
+    idx, bound = args
+    name, scn, stable = fixed_scenarios()[idx]
+    res = LC.run_real(scn, S.Replay(()))
+    kids = S.children(res.sched.choices, res.sched.runnable_log, 0, 0, bound)
+    return [_record(scn, res, stable, "explore:" + name)], kids
+
+
+def _subtree_task(args):
+    idx, bound, max_runs, start = args
     name, scn, stable = fixed_scenarios()[idx]
     out = []
-
-    class R:  # adapter: explore() wants .choices / .runnable_log
-        pass
-
-    results = []
-
-    def run_with(chooser):
-        res = LC.run_real(scn, chooser)
-        results.append(res)
-        r = R()
-        r.choices, r.runnable_log = res.sched.choices, res.sched.runnable_log
-        return r
-
-    first = True
-    for prefix, _ in S.explore(run_with, bound, max_runs=max_runs, shard=shard):
-        res = results.pop()
-        if first and shard is not None and shard[0] != 0:
-            first = False
-            continue  # the root schedule belongs to shard 0
-        first = False
-        out.append(_record(scn, res, stable, "explore:" + name))
+    for _prefix, r in S.explore(lambda ch: _R(LC.run_real(scn, ch)), bound, max_runs=max_runs, start=start):
+        out.append(_record(scn, r.res, stable, "explore:" + name))
     return out
 
 
@@ -372,13 +368,11 @@ def _absorb(ctx, rec):
 def run(ctx):
     quick = ctx.quick
     fixed = fixed_scenarios()
-    bound = 2
-    per_scn = 700 if quick else 12000
-    shards = 4
-    tasks = [(i, bound, per_scn // shards, (s, shards)) for i in range(len(fixed)) for s in range(shards)]
+    bound = 2 if quick else 3
+    per_scn = 2500 if quick else 60000   # cap on the runs per fixed scenario (spread over the first-level subtrees)
     n_rand_tasks = 32 if quick else 256
-    rand = [(ctx.rng.getrandbits(48), 25 if quick else 120, False) for _ in range(n_rand_tasks)]
-    line = [(ctx.rng.getrandbits(48), 2 if quick else 12, True) for _ in range(16 if quick else 96)]
+    rand = [(ctx.rng.getrandbits(48), 40 if quick else 150, False) for _ in range(n_rand_tasks)]
+    line = [(ctx.rng.getrandbits(48), 3 if quick else 15, True) for _ in range(16 if quick else 96)]
     ctx.assumptions += [
         "threads switch only at the yield points of harness/sched.py (sync points always; every source line of the five rich modules in "
         "line mode); preemption inside a source line and C-level reentrancy of file.write are not exhibited",
@@ -388,18 +382,34 @@ def run(ctx):
         "sys.stdout / sys.stderr redirection is switched off; auto_refresh=False (the refresh thread is one more thread calling refresh())",
     ]
     with multiprocessing.get_context("fork").Pool(NPROC) as pool:
-        for recs in pool.imap(_explore_task, tasks, chunksize=1):
-            for rec in recs:
-                _absorb(ctx, rec)
-        ctx.flush()
+        # phase A: every schedule with at most 1 preemption, complete; phase B: `bound` preemptions, capped per scenario
+        for phase, (b, budget) in enumerate([(1, None), (bound, per_scn)]):
+            roots = pool.map(_root_task, [(i, b) for i in range(len(fixed))])
+            tasks = []
+            for i, (recs, kids) in enumerate(roots):
+                if phase == 0:
+                    for rec in recs:
+                        _absorb(ctx, rec)
+                cap = None if budget is None else max(budget // max(len(kids), 1), 2)
+                tasks += [(i, b, cap, k) for k in kids]
+            n_capped = 0
+            for (i, _b, cap, _k), recs in zip(tasks, pool.imap(_subtree_task, tasks, chunksize=4)):
+                n_capped += cap is not None and len(recs) >= cap
+                ctx.note(f"explore-bound{b}-runs:{fixed[i][0]}", len(recs))
+                for rec in recs:
+                    _absorb(ctx, rec)
+            ctx.note(f"explore-bound{b}-subtrees-cut-by-cap", n_capped)
+            ctx.note(f"explore-bound{b}-subtrees-complete", len(tasks) - n_capped)
+            ctx.flush()
         for recs in pool.imap(_random_task, rand + line, chunksize=1):
             for rec in recs:
                 _absorb(ctx, rec)
     ctx.flush()
     ctx.rule = (
         "a case = one scheduled run of real threads on one console: (scenario, schedule) -> recorded trace of shared accesses, replayed "
-        "on the Lean model (trace inclusion + equal observables).  Exhaustive: every schedule with <= %d preemptions at sync granularity "
-        "(capped at %d runs per scenario) of %d fixed 2-3 thread scenarios; beyond: seeded random scenarios (2-4 threads, programs <= 3 "
+        "on the Lean model (trace inclusion + equal observables).  Exhaustive: every schedule with <= 1 preemption (complete), then <= %d "
+        "preemptions (depth-first below every first-level node, capped at about %d runs per scenario; the evidence counts the subtrees cut "
+        "by the cap) at sync granularity, of %d fixed 2-3 thread scenarios; beyond: seeded random scenarios (2-4 threads, programs <= 3 "
         "ops over print/log/capture/update/refresh/advance/start/stop) under random-walk and PCT schedulers, and line-granularity runs; "
         "distinct = distinct (scenario, event trace) requests" % (bound, per_scn, len(fixed))
     )
